@@ -21,7 +21,8 @@ CHECK = dict(
     id="C44", level="exploration",
     rule=("generated PE images: 1-5 sections, aligned (0x1000) or unaligned (0x10/0x200 grid) layout, "
           "virtual size 1..0x2800, raw size <, =, > virtual size, write flag random, 0-3 imported DLLs "
-          "with 1-12 functions by name or ordinal, PE32 and PE32+; ELF: gcc/ld outputs for 7 link "
+          "with 1-12 functions by name or ordinal, functions listed twice in a descriptor and a second "
+          "descriptor for the same DLL (same / other case of its name), PE32 and PE32+; ELF: gcc/ld outputs for 7 link "
           "modes x 6 linker layouts with random numbers of functions / initialised / zero data and "
           "imported libc symbols, loaded at base 0 or a random page-aligned base (ET_DYN), and "
           "synthetic minimal ELF32/64 LSB/MSB with unaligned vaddrs and memsz > filesz; distinct = "
@@ -162,8 +163,21 @@ def gen_pe(rng):
             funcs = []
             for f in rng.sample(FUNCS, rng.randint(1, 12)):
                 funcs.append(f if rng.random() < 0.8 else rng.randrange(1, 500))
-            nimp += len(funcs)
+            if rng.random() < 0.35:
+                # the same function (name or ordinal) listed again in the same descriptor
+                for f in rng.sample(funcs, min(len(funcs), rng.randint(1, 2))):
+                    funcs.insert(rng.randrange(len(funcs) + 1), f)
             desc.append(({"name": dll, "firstthunk": None}, funcs))
+        if rng.random() < 0.45:
+            # a second import descriptor for a DLL already imported (same or different case of its
+            # name), sharing some of its functions
+            first_name, first_funcs = rng.choice([(d[0]["name"], d[1]) for d in desc])
+            name = rng.choice([first_name, first_name.lower(), first_name.upper(), first_name.capitalize()])
+            funcs = rng.sample(first_funcs, rng.randint(1, len(first_funcs)))
+            if rng.random() < 0.5:
+                funcs.append(rng.choice(FUNCS))
+            desc.insert(rng.randrange(len(desc) + 1), ({"name": name, "firstthunk": None}, funcs))
+        nimp = sum(len(d[1]) for d in desc)
         siat = e.SHList.add_section(name=".iat", addr=va, rawsize=0x400, flags=0xC0000040)
         desc[0][0]["firstthunk"] = siat.addr + rng.choice([0, 8, 0x40])
         e.DirImport.add_dlldesc(desc)
@@ -252,9 +266,16 @@ def run_pe(rng, rec, idx):
         rec.fail("preload_pe: raises %s" % type(exc).__name__, repr(exc), witness)
         return
     wb = 8 if info["plus"] else 4
+    owners = {}
+    for slot, dll, func in info["imports"]:
+        owners[(dll.lower(), func)] = owners.get((dll.lower(), func), 0) + 1
     for slot, dll, func in info["imports"]:
         rec.ev()
         kind = "ordinal" if isinstance(func, int) else "name"
+        shared = owners[(dll.lower(), func)] > 1
+        if shared:
+            kind += ", function imported through several slots"
+            rec.count("pe_import_slots_sharing_their_function")
         try:
             p = int.from_bytes(vm.get_mem(info["base"] + slot, wb), "little")
         except Exception as exc:
@@ -522,7 +543,9 @@ def run_shard(params, rec):
 def floors(tier, c, evaluations):
     miss = []
     need = ["pe:PE32/aligned", "pe:PE32/unaligned", "pe:PE32+/aligned", "pe:PE32+/unaligned", "pe_import:name",
-            "pe_import:ordinal", "elf_import_slots_confirmed_by_readelf"]
+            "pe_import:ordinal", "pe_import:name, function imported through several slots",
+            "pe_import:ordinal, function imported through several slots",
+            "elf_import_slots_confirmed_by_readelf"]
     for lay in ("aligned", "unaligned"):
         for cls in ("raw<virtual", "raw>virtual", "raw=virtual"):
             need.append("pe_section:%s/%s/W" % (lay, cls))
@@ -541,6 +564,9 @@ def floors(tier, c, evaluations):
         miss.append("fewer than 8 synthetic ELF images (%d)" % synth)
     if len([k for k in c if k.startswith("elf:toolchain/")]) < 3:
         miss.append("fewer than 3 toolchain link modes produced an image")
+    if c.get("pe_import_slots_sharing_their_function", 0) < 30:
+        miss.append("fewer than 30 PE import slots share their (dll, function) with another slot (%d)" %
+                    c.get("pe_import_slots_sharing_their_function", 0))
     if c.get("regions_verified", 0) + c.get("failures", 0) < 100:
         miss.append("fewer than 100 sections/segments compared")
     return miss
